@@ -133,6 +133,13 @@ func engineCaseInv(ctx *Ctx) {
 		if N == 0 {
 			continue
 		}
+		if g := ctx.G(d); dbName != "shipped" && g%5 == 3 && N < 400 {
+			// an embedding index whose vocabulary comes from a cased model
+			if attachEmbeddings(ctx, r, db, []string{"cased", "cased", "unit"}[(g/5)%3]) {
+				dbName += "/embeddings"
+				ctx.R.Path("databases-with-a-cased-embedding-vocabulary", 1)
+			}
+		}
 		words := vlib.DBWords(cmds)
 		if len(words) > 3000 {
 			words = words[:3000]
@@ -268,6 +275,27 @@ func engineCaseInvCLI(ctx *Ctx) {
 		dbp := filepath.Join(base, "db.yml")
 		vlib.WriteYAML(dbp, cmds)
 		words := vlib.DBWords(cmds)
+		var targets []string
+		if ctx.G(d)%4 == 2 && len(words) > 4 {
+			// the binary runs inside a project whose Makefile targets and package scripts are spelt with capitals and are words
+			// of the database (the project context boosts by name)
+			var mk, pj strings.Builder
+			pj.WriteString("{\n  \"name\": \"demo\",\n  \"scripts\": {")
+			for i := 0; i < 4; i++ {
+				w := words[r.Intn(len(words))]
+				t := []string{strings.ToUpper(w[:1]) + w[1:], strings.ToUpper(w), w}[r.Intn(3)]
+				targets = append(targets, t)
+				fmt.Fprintf(&mk, "%s:\n\t@echo %s\n\n", t, t)
+				if i > 0 {
+					pj.WriteString(",")
+				}
+				fmt.Fprintf(&pj, "\n    %q: \"echo\"", t)
+			}
+			pj.WriteString("\n  }\n}\n")
+			os.WriteFile(filepath.Join(h.Cwd, "Makefile"), []byte(mk.String()), 0o644)
+			os.WriteFile(filepath.Join(h.Cwd, "package.json"), []byte(pj.String()), 0o644)
+			ctx.R.Path("cli-homes-inside-a-project-with-capitalised-targets", 1)
+		}
 		// the locale the user's shell exports (the same for both spellings of a pair): case folding of a query may not follow it
 		var locEnv []string
 		if loc := []string{"", "", "C", "en_US.UTF-8", "tr_TR.UTF-8", "az_AZ.UTF-8", "de_DE.UTF-8", "tr_TR", "lt_LT.UTF-8", "el_GR.UTF-8"}[r.Intn(10)]; loc != "" {
@@ -285,6 +313,9 @@ func engineCaseInvCLI(ctx *Ctx) {
 			}
 			if qkind == 2 {
 				ctx.R.Path("cli-typo-queries", 1)
+			}
+			if len(targets) > 0 && r.Intn(2) == 0 { // the request names a target exactly as the project file spells it
+				q = targets[r.Intn(len(targets))] + " " + vlib.GenQuery(r, words, 1+r.Intn(2), 0)
 			}
 			q2 := c20Respell(r, q, r.Intn(5))
 			kind := "case"
